@@ -17,7 +17,7 @@ NA = {
 
 # property -> (level category, design ref, level text, level note, technique)
 CLAIMS = {
- "C01": ("exploration", "DESIGN §6 C01", "Seeded search over store/overwrite/read/advance/tick/sweep histories on a real Node under a simulated clock, every read compared with a map reference model (exact deadlines, including reads exactly at the deadline). Sampling, not proof.",
+ "C01": ("exploration", "DESIGN §6 C01", "Seeded search over store/overwrite/read/advance/tick/sweep histories on a real Node under a simulated clock, every read compared with a map reference model (exact deadlines, including reads exactly at the deadline). One run in 100 is the swarm variant (2..4 real Nodes replicating over simulated TCP under resets, partitions and restarts; every node is read after every operation). Sampling, not proof.",
          "Trusts the simulated clock seam (link-time interposition of steady/system clock) and the reference model derived from the property text.", "deterministic simulation + reference model"),
 }
 
